@@ -74,6 +74,34 @@ class ModInfo:
     globals_: Dict[str, ast.AST] = field(default_factory=dict)
 
 
+_FLIP = {ast.Eq: ast.Eq, ast.NotEq: ast.NotEq, ast.Lt: ast.Gt, ast.Gt: ast.Lt, ast.LtE: ast.GtE, ast.GtE: ast.LtE}
+
+
+def _rank(e: ast.AST) -> int:
+    if isinstance(e, ast.Constant):
+        return 3
+    if isinstance(e, ast.Name):
+        return 2
+    return 1
+
+
+class _Canon(ast.NodeTransformer):
+    """Single binary comparisons are read with the more complex operand on the left and a constant on the right
+    (`0 == d` as `d == 0`, `old == ref.id` as `ref.id == old`, `1 < len(x)` as `len(x) > 1`): the rules then meet one spelling."""
+
+    def visit_Compare(self, node: ast.Compare) -> ast.AST:
+        self.generic_visit(node)
+        if len(node.ops) == 1 and type(node.ops[0]) in _FLIP and _rank(node.left) > _rank(node.comparators[0]):
+            left, right = node.comparators[0], node.left
+            node.left, node.comparators = left, [right]
+            node.ops = [_FLIP[type(node.ops[0])]()]
+        return node
+
+
+def canonical(tree: ast.Module) -> ast.Module:
+    return _Canon().visit(tree)
+
+
 class LoadError(Exception):
     pass
 
@@ -105,7 +133,7 @@ class Program:
                     with open(p, encoding="utf-8") as fh:
                         src = fh.read()
                 try:
-                    tree = ast.parse(src, p)
+                    tree = canonical(ast.parse(src, p))
                 except SyntaxError as e:  # the tree does not even compile
                     raise LoadError(f"{relp}: {e}") from e
                 self.modules[modname] = ModInfo(modname, p, relp, src, tree, is_pkg)
@@ -113,7 +141,7 @@ class Program:
         for relp, src in self.overrides.items():
             modname = relp[:-3].replace(os.sep, ".")
             if relp.endswith(".py") and modname not in self.modules and not modname.endswith("__init__"):
-                self.modules[modname] = ModInfo(modname, os.path.join(root, relp), relp, src, ast.parse(src, relp), False)
+                self.modules[modname] = ModInfo(modname, os.path.join(root, relp), relp, src, canonical(ast.parse(src, relp)), False)
         for m in self.modules.values():
             for s in m.tree.body:
                 self._index_stmt(m, s)
